@@ -102,7 +102,7 @@ func (m *gModel) inst(t *gTask, P, V string, hasV bool) *gInst {
 	}
 	run := effRun(m.p, t)
 	if run == "once" {
-		if t.Requires != "" && t.Platform != "nomatch" {
+		if (t.Requires != "" || t.DynFail) && t.Platform != "nomatch" {
 			// the requires guard of a run: once task is evaluated per call, before the call is deduplicated: a
 			// call that trips it fails by itself (a private, empty instance) and never joins the shared execution
 			gv, gh := V, hasV
@@ -111,8 +111,10 @@ func (m *gModel) inst(t *gTask, P, V string, hasV bool) *gInst {
 			}
 			g := ""
 			switch {
-			case !gh:
+			case t.Requires != "" && !gh:
 				g = "requires"
+			case t.DynFail:
+				g = "dynvar"
 			case t.Requires == "enum" && gv != "a" && gv != "b":
 				g = "enum"
 			}
@@ -157,6 +159,8 @@ func (m *gModel) inst(t *gTask, P, V string, hasV bool) *gInst {
 		in.Guard = "requires"
 	case t.Requires == "enum" && !hasV:
 		in.Guard = "requires"
+	case t.DynFail:
+		in.Guard = "dynvar" // the task's variables cannot be evaluated: it fails before its deps run
 	case t.Requires == "enum" && V != "a" && V != "b":
 		in.Guard = "enum"
 	}
